@@ -107,6 +107,16 @@ def gen(tier, rng):
     yield ('history', 3, [['aaa bbb ccc ddd', 6, ''], ['aaa bbb ccc ddd', 6, '  '], ['aaa bbb ccc ddd', 6, '']])
     for odd in ODD:
         yield ('pinned', 1, [('ab ' + odd + ' cd ') * 12, 20, '  '])
+    # long logical lines built from many write$ calls (well over 1000 characters before the newline$)
+    for i in range(60 if tier == 'quick' else 600):
+        ops = []
+        for _ in range(rng.randint(40, 220)):
+            w = ''.join(rng.choice('abcdefgh') for _ in range(rng.randint(1, 14)))
+            ops.append([w + rng.choice([' ', ' ', '', ', ', '  '])])
+            if rng.random() < 0.03:
+                ops.append([])
+        ops.append([])
+        yield ('long_output', 2, ops)
     for i in range(300 if tier == 'quick' else 3000):
         ops = []
         for _ in range(rng.randint(1, 8)):
@@ -123,6 +133,23 @@ def oracle(fn, arg, out):
             m = oracle(1, c, o)
             if m:
                 return 'call %d of the history: %s' % (k, m)
+        return None
+    if fn == 2:
+        # write$/newline$ runs: the words of the emitted text are the words of the written text, in order
+        # (nothing lost, duplicated or glued together), and every physical line obeys the width law
+        if out[0] != 0:
+            return 'the output run raised'
+        written = ''.join((S(o[0]) if len(o) == 1 else '\n') for o in arg)
+        if written.split('\n')[-1] != '':
+            written = '\n'.join(written.split('\n')[:-1]) + '\n'     # text still in the buffer is not emitted
+        res = S(out[1])
+        if res.split() != written.split():
+            return 'the words of the emitted lines differ from the words written: %r ... vs %r ...' % (res[-60:], written[-60:])
+        if any(c in written for c in '\r\x0b\x0c\x1c\x1d\x1e\x85\u2028\u2029'):
+            return None
+        for k, l in enumerate(res.split('\n')):
+            if len(l) > 79 and any(c.isspace() for c in l[3:]):
+                return 'physical line %d is longer than 79 columns although it has a legal break: %r' % (k, l[:90])
         return None
     if fn != 1:
         return None
